@@ -162,6 +162,28 @@ theorem c15_satisfiable_covered_ascending (len : Nat) (hlen : 0 < len)
     (by rw [hsplit, hv]; exact List.mem_filterMap.mpr ⟨e, he, hr⟩)
   exact hcov
 
+/-- Beyond the two limits nothing already accepted is lost: for a range-set
+    `pre ++ post` of ANY length, if the first part `pre` has at most 128 specs whose
+    satisfiable ranges ascend, every satisfiable spec of `pre` is contained in an
+    output range, whatever follows in `post` (more specs, out of order, junk; those
+    may be ignored — "additional ranges are ignored" in http_range.c). -/
+theorem c15_satisfiable_covered_prefix (len : Nat) (hlen : 0 < len)
+    (hmax : (len : Int) ≤ LLONG_MAX)
+    (pre post : List Elem) (hne : pre ≠ []) (hwf : ∀ e ∈ pre ++ post, e.WF)
+    (hcount : pre.length ≤ 128)
+    (hasc : (pre.filterMap (fun e => e.spec.sem len)).Pairwise (fun a b => a.1 ≤ b.1)) :
+    ∀ e ∈ pre, ∀ r, e.spec.sem len = some r →
+      ∃ p ∈ parse (rangeSetText (pre ++ post)) len, p.1 ≤ r.1 ∧ r.2 ≤ p.2 := by
+  intro e he r hr
+  have hsplit := splitOn_rangeSet (pre ++ post) (by simp [hne]) hwf
+  rw [List.map_append] at hsplit
+  have hwfp : ∀ e ∈ pre, e.WF := fun x hx => hwf x (by simp [hx])
+  have hv : validRanges len (pre.map Elem.text) = pre.filterMap (fun e => e.spec.sem len) :=
+    validRanges_elems len (by omega) hmax pre hwfp
+  exact parse_cov_prefix (s := rangeSetText (pre ++ post)) (len := (len : Int))
+    (pre.map Elem.text) (post.map Elem.text) hsplit (by simpa using hcount)
+    (by rw [hv]; exact hasc) r (by rw [hv]; exact List.mem_filterMap.mpr ⟨e, he, hr⟩)
+
 /-! ## 416 only when nothing is satisfiable -/
 
 /-- Whatever the request and the header (grammatical or junk): a response turns
